@@ -148,6 +148,30 @@ def run_cases(ctx, rng, nbox, nx, sl):
                     lines.append(f"repair f64 {m} {fr(lo)} {fr(hi)} {fr(x)}")
                     expect.append(fr(y) if np.isfinite(y) else "none")
                     meta.append((m, lo, hi, x, y))
+    # the box is an argument, not an identity: a second box that happens to live where an earlier one lived (the
+    # earlier array was freed), or a bounds array edited in place between two calls, must be honoured as given
+    k = 0
+    while k + 1 < len(boxes) and k < 60:
+        (lo1, hi1), (lo2, hi2) = boxes[k], boxes[k + 1]
+        k += 2
+        xs = gen_xs(rng, lo2, hi2, max(4, nx // 4))
+        mat = np.array([xs], dtype=np.float64).T
+        for m in METHODS:
+            b = np.array([(lo1, hi1)], dtype=np.float64)
+            apply_bounds(mat.copy(), b, m)
+            if rng.random() < 0.5:
+                del b
+                b = np.array([(lo2, hi2)], dtype=np.float64)
+                sl.count("second-box-after-the-first-was-freed")
+            else:
+                b[0, 0], b[0, 1] = lo2, hi2
+                sl.count("bounds-array-edited-in-place")
+            out = np.asarray(apply_bounds(mat.copy(), b, m))
+            for a in range(len(xs)):
+                x, y = float(mat[a, 0]), float(out[a, 0])
+                lines.append(f"repair f64 {m} {fr(lo2)} {fr(hi2)} {fr(x)}")
+                expect.append(fr(y) if np.isfinite(y) else "none")
+                meta.append((m, lo2, hi2, x, y))
     got = run_driver(lines)
     for line, e, g, (m, lo, hi, x, y) in zip(lines, expect, got, meta):
         sl.cases += 1
